@@ -232,6 +232,65 @@ def run(prog, rep, tier, repo):
     (rep.viol if problems else rep.ok)('fit-loop', key, '; '.join(problems) if problems else 'coef, deviance(y, mu) and the unpenalised information are stored', site_of(f.body))
     rep.floor('fit-loop', 4, 'newton step, offsets, error exit, stored results')
 
+    # ------------------------------------------------------------------ convergence test is on the magnitude of the change
+    hc = prog.func(G + '::has_converged')
+    key = 'convergence-magnitude'
+    if hc is None:
+        rep.undecided('convergence-magnitude', key, 'has_converged not found (convergence test inlined?)', proof=False)
+    else:
+        rep.touch(hc.body.key)
+        loss_args = [('arg', i, hc.names.get(i)) for i in range(2, hc.body.arg_count + 1)]
+        cmps = []
+        pool = list(hc.return_values()) + [st.value for st in hc.stores()] + [c for gl in hc.guards().values() for c, _ in gl]
+        for t in pool:
+            for z in subterms(t):
+                if tag(z) == 'bin' and z[1] in ('Lt', 'Le', 'Gt', 'Ge') and len(z) > 4 and z[4] == 'f64' and z not in cmps:
+                    if any(a in subterms(z) for a in loss_args[:2]) and any(tag(q) == 'bin' and q[1] == 'Sub' for q in subterms(z)) or any(tag(q) == 'local' for q in (z[2], z[3])):
+                        cmps.append(z)
+
+        def nonneg(t, bb=None):
+            """is t provably >= 0 (or NaN)?  returns True / False (provably signed) / None"""
+            if tag(t) == 'call' and short(t[1]) == 'abs':
+                return True
+            if tag(t) == 'bin' and t[1] == 'Div':
+                n_ = nonneg(t[2], bb)
+                return n_
+            if tag(t) == 'bin' and t[1] == 'Mul':
+                a_, b_ = nonneg(t[2], bb), nonneg(t[3], bb)
+                return True if (a_ and b_) else (False if (a_ is False or b_ is False) else None)
+            if tag(t) == 'local':
+                defs = [st for st in hc.stores() if st.target == t]
+                if not defs:
+                    return None
+                rs = [nonneg(st.value, st.bb) for st in defs]
+                return True if all(r is True for r in rs) else (False if any(r is False for r in rs) else None)
+            if tag(t) == 'bin' and t[1] == 'Sub' and t[2] in loss_args and t[3] in loss_args:
+                a_, b_ = t[2], t[3]
+                for cn, v in (hc.guards().get(bb, []) if bb is not None else []):
+                    if tag(cn) == 'bin' and {cn[2], cn[3]} == {a_, b_}:
+                        op = cn[1]
+                        if cn[2] == b_:      # orient as a ? b
+                            op = {'Gt': 'Lt', 'Ge': 'Le', 'Lt': 'Gt', 'Le': 'Ge'}.get(op, op)
+                        if (op in ('Gt', 'Ge') and v is True) or (op in ('Lt', 'Le') and v is False):
+                            return True
+                return False
+            return None
+        verdicts = []
+        for z in cmps:
+            lhs = z[2] if z[1] in ('Lt', 'Le') else z[3]
+            verdicts.append((nonneg(lhs), z))
+        if not verdicts:
+            rep.undecided('convergence-magnitude', key, 'no comparison of a loss change with the tolerance recognised', site_of(hc.body), proof=False)
+        elif any(v is False for v, _ in verdicts):
+            z = [z for v, z in verdicts if v is False][0]
+            rep.viol('convergence-magnitude', key, 'the convergence test %s compares a signed change with the tolerance: an iteration in which the monitored loss moves the '
+                     'other way by any amount makes it negative and counts as converged, so fit() reports success on unconverged coefficients' % show(z)[:100], site_of(hc.body))
+        elif all(v is True for v, _ in verdicts):
+            rep.ok('convergence-magnitude', key, 'the compared change is a magnitude (abs or ordered difference)')
+        else:
+            rep.undecided('convergence-magnitude', key, 'sign of the compared quantity not derived', site_of(hc.body), proof=False)
+    rep.floor('convergence-magnitude', 1, 'has_converged')
+
     # ------------------------------------------------------------------ D4 deviance scale per family
     fd = prog.func(FAM + '::deviance')
     if fd is not None:
